@@ -45,14 +45,29 @@ def body_of(shape, k, variant):
     return [tag + b"stream-" + b"s" * (5 + variant), b"HTTP/1.1 200 OK\r\n\r\n" + b"t" * (k + 1)]
 
 
+SHAPES = ("fixed", "stream", "empty")
+# the ways a WSGI application may hand over a response of each shape (PEP 3333; empty items are "not ready yet")
+STYLES = {
+    "fixed": ("list", "generator", "empty-item-first", "one-item", "empty-item-between", "more-than-declared", "write-callable"),
+    "stream": ("list", "generator", "empty-item-first", "one-item", "empty-item-between", "write-callable"),
+    "empty": ("no-items", "length0-no-items", "empty-item", "length0-empty-item-list", "length0-empty-item-generator",
+              "empty-item-list"),
+}
+
+
+SEEN_STYLES = {}      # (shape, style) -> positions of the connection at which it was used
+
+
 class App:
-    """WSGI application answering request /r<k> in the shape the behaviour prescribes; the way the body is handed over
-    (list, generator, generator with an empty first piece) varies with `variant`"""
+    """WSGI application answering request /r<k> in the shape the behaviour prescribes.  The style in which the response
+    is handed over rotates with the variant, the position of the request and the mix of shapes, so that every style of
+    every shape occurs at every position of the connection."""
 
     def __init__(self, shapes, variant):
         self.shapes = shapes
         self.variant = variant
         self.calls = []
+        self.styles = {}
 
     def __call__(self, environ, start_response):
         m = re.match(r"^/r(\d+)$", environ.get("PATH_INFO", ""))
@@ -60,17 +75,34 @@ class App:
         self.calls.append(k)
         shape = self.shapes.get(k, "empty")
         pieces = body_of(shape, k, self.variant)
+        # rank of this mix among the mixes with the same shape at position k: runs through 0 .. 3^(N-1)-1 >= number of styles
+        rank = 0
+        for j in sorted(self.shapes):
+            if j != k:
+                rank = rank * 3 + SHAPES.index(self.shapes[j])
+        style = STYLES[shape][(self.variant * 2 + rank) % len(STYLES[shape])]
+        self.styles[k] = style
+        SEEN_STYLES.setdefault((shape, style), set()).add(k)
         headers = [("X-Id", str(k)), ("Content-Type", "application/octet-stream")]
-        how = (self.variant + k) % 3
-        if shape == "fixed":
+        if shape == "fixed" or style.startswith("length0"):
             headers.append(("Content-Length", str(sum(len(p) for p in pieces))))
-        elif shape == "empty" and how == 1:
-            headers.append(("Content-Length", "0"))
-        start_response("200 OK", headers)
-        if how == 0:
+        write = start_response("200 OK", headers)
+        if shape == "empty":
+            items = [] if style.endswith("no-items") else [b""]
+            return (p for p in items) if style in ("empty-item", "length0-empty-item-generator") else items
+        if style == "list":
             return list(pieces)
-        if how == 1:
+        if style == "generator":
             return (p for p in pieces)
+        if style == "one-item":
+            return [b"".join(pieces)]
+        if style == "empty-item-between":
+            return [pieces[0], b"", pieces[1]]
+        if style == "more-than-declared":        # documented: the body is limited to the declared length
+            return [pieces[0], pieces[1] + b"!beyond the declared length"]
+        if style == "write-callable":            # the imperative write() returned by start_response
+            write(pieces[0])
+            return [pieces[1]]
 
         def gen():
             yield b""                     # "not ready yet": documented as allowed, writes nothing
@@ -313,7 +345,7 @@ class System:
         return out
 
     def info(self):
-        return {"variant": self.variant, "c2s": repr(bytes(self.conn.c2s)[-300:]), "s2c": repr(bytes(self.conn.s2c)[-600:])}
+        return {"variant": self.variant, "styles": dict(self.app.styles), "c2s": repr(bytes(self.conn.c2s)[-300:]), "s2c": repr(bytes(self.conn.s2c)[-600:])}
 
     def close(self):
         with P.patched(self.net), P.quiet():
@@ -364,6 +396,10 @@ def run_c31(ctx):
         ctx.add_validated(w.traces, {"variant": variant, "walk": w.sample})
         if w.divs:
             break
+    missing = [(sh, st) for sh in SHAPES for st in STYLES[sh] if len(SEEN_STYLES.get((sh, st), ())) < gn]
+    if missing and not ctx.divs:
+        raise tlc.TlcError("vacuous walk: response styles not used at every position of the connection: %r" % missing)
+    ctx.extra["response_styles_exercised"] = {"%s/%s" % k: sorted(v) for k, v in sorted(SEEN_STYLES.items())}
     ctx.exhaustive = False       # outcomes the specification allows but the implementation never produces cannot be replayed
     ctx.extra.update({"graph_states": len(g.states), "graph_edges": g.nedges, "state_action_pairs": total_pairs,
                       "pairs_performed": done, "steps_on_real_programs": steps, "walks": traces,
